@@ -475,7 +475,13 @@ macro_rules! def_build1 {
                             })
                         }
                         Strat1::Spline { extrapolate, bc } => {
-                            let s = CubicSpline::<T, $D>::new().extrapolate(*extrapolate).boundary(conv_bc::<T, $D>(bc)?);
+                            // the order of the strategy-builder calls is varied (a function of the data content)
+                            let bcv = conv_bc::<T, $D>(bc)?;
+                            let s = if builder_order(data.iter().next().map(|v| v.key()).unwrap_or(0) ^ data.len() as u64) {
+                                CubicSpline::<T, $D>::new().extrapolate(*extrapolate).boundary(bcv)
+                            } else {
+                                CubicSpline::<T, $D>::new().boundary(bcv).extrapolate(*extrapolate)
+                            };
                             let b = Interp1DBuilder::new(data).strategy(s);
                             Some(match x {
                                 Some(x) => b.x(x).build().map(|i| Box::new(i) as Box<$obj>),
@@ -528,6 +534,11 @@ macro_rules! def_build2 {
 }
 def_build2!(build2, dyn I2<T>);
 def_build2!(build2_sync, dyn I2<T> + Send + Sync);
+
+/// which of the two orders of `CubicSpline::extrapolate` / `CubicSpline::boundary` a builder uses
+pub fn builder_order(h: u64) -> bool {
+    crate::common::splitmix(h) & 1 == 0
+}
 
 pub fn arr_d<T: Flt>(shape: &[usize], vals: &[f64]) -> ArrayD<T> {
     ArrayD::from_shape_vec(IxDyn(shape), vals.iter().map(|&v| T::of(v)).collect()).expect("shape/len mismatch")
@@ -589,6 +600,23 @@ pub fn with_interp1<T: Flt, Rr>(
                         let d = data.clone().into_dimensionality::<$D>().ok()?;
                         Some(finish!(Interp1DBuilder::new(d).strategy(s)))
                     }
+                }
+            }
+        }};
+    }
+    ddispatch!(dd, go)
+}
+
+/// like `with_interp1` with the axis given as an arbitrary (e.g. strided, aliasing) view and view data
+pub fn with_interp1_xview<T: Flt, Rr>(x: ndarray::ArrayView1<'_, T>, data: &ArrayD<T>, dd: DDim, strat: &Strat1<T>, f: &mut dyn FnMut(&dyn I1<T>) -> Rr) -> Option<Result<Rr, BuilderError>> {
+    macro_rules! go {
+        ($D:ty) => {{
+            let d = data.view().into_dimensionality::<$D>().ok()?;
+            match strat {
+                Strat1::Linear { extrapolate } => Some(Interp1DBuilder::new(d).strategy(Linear::new().extrapolate(*extrapolate)).x(x).build().map(|i| f(&i))),
+                Strat1::Spline { extrapolate, bc } => {
+                    let s = CubicSpline::<T, $D>::new().extrapolate(*extrapolate).boundary(conv_bc::<T, $D>(bc)?);
+                    Some(Interp1DBuilder::new(d).strategy(s).x(x).build().map(|i| f(&i)))
                 }
             }
         }};
